@@ -202,6 +202,15 @@ func prepare(sp *propSpec, dir string) (string, error) {
 		return "", fmt.Errorf("build worker: %v\n%s", err, out)
 	}
 	fmt.Printf("  built worker in %.1fs\n", time.Since(t0).Seconds())
+	if sp.ID == "C20" {
+		// corpus runs: the instrumented interpreter as a binary + the script corpus (not instrumented, not compiled)
+		if out, err := run("/", nil, "rsync", "-a", "--exclude", "*.go", repoDir+"/tests/", dir+"/tests/"); err != nil {
+			return "", fmt.Errorf("copy tests: %v\n%s", err, out)
+		}
+		if out, err := run(dir, nil, "go", "build", "-trimpath", "-o", filepath.Join(dir, "origami-bin"), "."); err != nil {
+			return "", fmt.Errorf("build origami binary: %v\n%s", err, out)
+		}
+	}
 	return filepath.Join(dir, "worker.test"), nil
 }
 
